@@ -61,10 +61,15 @@ def whole_ref_violations(req, impl):
     rd = (impl.get("rendered") or {}).get("ok")
     if rd is None:
         return []
+    def bare(k):
+        # keys are re-stripped once per pass (D9), so '~=k1' ends up writing k1: count every spelling
+        while isinstance(k, str) and k[:1] in ("=", "~"):
+            k = k[1:]
+        return k
     defs = {}
     for L in req["layers"]:
         for k, v in L["m"]:
-            defs.setdefault(repr(G.strip_marker(k)), []).append((k, v))
+            defs.setdefault(repr(bare(k)), []).append((k, v))
     out = []
     for kk, dv in defs.items():
         if len(dv) != 1:
